@@ -108,6 +108,7 @@ void finish();                                      // stop tracking (after fina
 void name_range(const void* p, size_t n, const char* name);
 void event(const std::string& line);                // K_EV record, any thread
 void yield_point();                                 // explicit scheduling point (operation START)
+bool at_boundary(int tid);                          // thread is at an operation START (or has not started)
 int self();                                         // logical tid (0 = main)
 uint64_t choose(uint64_t n);                        // recorded nondeterministic choice in [0,n)
 void fail(int status, const std::string& detail);   // harness oracle reports a violation
